@@ -50,6 +50,17 @@ def gen_case(rng, i):
         else:
             raw = True
             mode = "raw"
+    if mode == "alloc" and rng.random() < 0.12:
+        # a NEW message that nevertheless carries header-ish tags: PossDupFlag with a value other than "Y"
+        # and / or a stale MsgSeqNum – the encoder must still allocate the session's next number
+        extra = []
+        if rng.random() < 0.8:
+            extra.append(("L", "43", rng.choice(["N", "N", "y", "YES", ""])))
+        if rng.random() < 0.8 and not any(n[1] == "34" for n in tree):
+            extra.append(("L", "34", str(rng.choice([1, 12, 99999]))))
+        if K.wf_msg(mtype, tree + extra, True) or True:
+            tree = tree + extra
+            mode = "alloc-stale"
     if rng.random() < 0.3 and tree:
         # non-ASCII / non-latin-1 text in a value
         j = rng.randrange(len(tree))
